@@ -645,7 +645,24 @@ func (tt *TermTable) FCmp(op Op, a, b *Term) *Term {
 	return tt.mk(op, SBool, 0, 0, a, b)
 }
 
-func (tt *TermTable) FBin(op Op, a, b *Term) *Term { return tt.mk(op, SFP, 0, 0, a, b) }
+func (tt *TermTable) FBin(op Op, a, b *Term) *Term {
+	// x * -1 = -1 * x = -x exactly in IEEE arithmetic (NaN stays NaN)
+	if op == OpFMul {
+		if b.IsConst() && b.F == -1 {
+			return tt.FUn(OpFNeg, a)
+		}
+		if a.IsConst() && a.F == -1 {
+			return tt.FUn(OpFNeg, b)
+		}
+		if b.IsConst() && b.F == 1 {
+			return a
+		}
+		if a.IsConst() && a.F == 1 {
+			return b
+		}
+	}
+	return tt.mk(op, SFP, 0, 0, a, b)
+}
 func (tt *TermTable) FUn(op Op, a *Term) *Term {
 	if op == OpFNeg && a.Op == OpFNeg {
 		return a.Args[0]
